@@ -784,9 +784,19 @@ def key_holder_dispatch(ctx, col: Collector, rule: str):
     from ..inline import inlined_info
     fi = inlined_info(idx, idx.func('pydbml.renderer.sql.default.table', 'get_references_for_sql'), depth=2)
     # a local that only names `model.database` (bound once) is read as that path
-    from .common import inline_single_assignment_locals
+    import copy as _copy
     from ..pyindex import FuncInfo as _FI
-    fi = _FI(fi.module, fi.qualname, inline_single_assignment_locals(fi.node), fi.cls, fi.kind)
+    from ..normalise import _PathSubst, _attr_path
+    node_ = _copy.deepcopy(fi.node)
+    for i_, st_ in enumerate(list(node_.body)):
+        if isinstance(st_, ast.Assign) and len(st_.targets) == 1 and isinstance(st_.targets[0], ast.Name) and _attr_path(st_.value) \
+                and sum(1 for x in ast.walk(node_) if isinstance(x, ast.Name) and x.id == st_.targets[0].id and isinstance(x.ctx, ast.Store)) == 1:
+            k_ = node_.body.index(st_)
+            sub_ = _PathSubst(st_.targets[0].id, st_.value)
+            node_.body[k_ + 1:] = [sub_.visit(b_) for b_ in node_.body[k_ + 1:]]
+            del node_.body[k_]
+    ast.fix_missing_locations(node_)
+    fi = _FI(fi.module, fi.qualname, node_, fi.cls, fi.kind)
     p = [a.arg for a in fi.node.args.args][0]
     consts = const_names(ctx)
     holders = holder_sides(ctx)
